@@ -150,8 +150,7 @@ def tlc(module, cfg, workdir, workers=NCPU, env=None, timeout=1800, heap="8g", e
     with open(cfgp, "w") as f:
         f.write(cfg)
     meta = os.path.join(workdir, "meta")
-    jopts = ["-XX:+UseParallelGC", "-Xmx" + heap, "-Dtlc2.tool.fp.FPSet.impl=tlc2.tool.fp.OffHeapDiskFPSet"]
-    jopts = ["-XX:+UseParallelGC", "-Xmx" + heap]
+    jopts = ["-XX:+UseSerialGC" if workers == 1 else "-XX:+UseParallelGC", "-Xmx" + heap, "-XX:TieredStopAtLevel=4"]
     if dfs:
         jopts.append("-Dtlc2.tool.queue.IStateQueue=StateDeque")
     cmd = ["java"] + jopts + ["-cp", TLA_CP, "tlc2.TLC", "-workers", str(workers), "-metadir", meta,
